@@ -516,7 +516,10 @@ def _cg(plan, ctx):
     nontrivial = _mono_check(seq, 'cg', 'energy-error', floor, inst.tags, ctx)
     n = len(xs)
     if cond <= 1e3 and len(seq) - 1 >= n and len(seq) - 1 == N:
-        if seq[n] > 1e-12 * seq[0] + 1e-300:
+        # exact termination holds in exact arithmetic; with clustered
+        # eigenvalues rounding leaves up to ~1e-6 of the initial error (seen:
+        # 1.3e-6 at cond 932), a wrong recurrence leaves O(1)
+        if seq[n] > 1e-6 * seq[0] + 1e-300:
             raise Violation('C12', 'C12/cg-exactness',
                             'cg: energy error after dim={} steps is {:.3g} of '
                             'initial (cond {:.3g}); instance {}'.format(
